@@ -109,6 +109,25 @@ class C18(Property):
             api = rng.choice(["o", "b", "ob"])
             ops = [f"{rng.choice(api)}{i}:-" for i in order]
             cases.append(Case(f"curveseq {m} {pool_str(pl)} # " + " ".join(ops), tags=("long-bezier-around-short-segments",)))
+        # decoded maps: the curve a decoded slider hands out (cached by the finaliser) against Curve::new on its own fields, for
+        # the Beatmap and the HitObjects decoder, and again after the map's mode was changed and the map encoded. Consecutive
+        # sliders of one shape with different (or no) lengths, Catmull sliders in every mode (seeds C18-k, C18-l)
+        from ..gen import hexs
+        for _ in range(150 if tier == "quick" else 5000):
+            mode = rng.choice([0, 0, 1, 2, 3])
+            ls = ["osu file format v14", "", "[General]", f"Mode: {mode}", "", "[Difficulty]", "SliderMultiplier:1.4", "", "[TimingPoints]", "0,400,4,1,0,100,1,0", "", "[HitObjects]"]
+            t = 1000
+            shapes = ["B|200:100|200:200", "C|150:120|200:100|250:150", "L|200:100", "P|150:150|200:100", "B|120:80|B|160:160|200:100", "C|96:160|160:32|224:160|288:64"]
+            for _ in range(rng.randint(1, 6)):
+                sh = rng.choice(shapes)
+                x, y = rng.choice([(100, 100), (100, 100), (300, 150), (rng.randint(0, 400), rng.randint(0, 300))])
+                for _ in range(rng.choice([1, 2, 2, 3])):     # the same shape again with another length
+                    L = rng.choice(["180", "60", "0", "", "250.5", "1"])
+                    ls.append(f"{x},{y},{t},2,0,{sh},{rng.choice([1, 1, 2])}" + (f",{L}" if L else ""))
+                    t += rng.choice([0, 500, 2000])
+                if rng.random() < 0.3:
+                    ls.append(f"256,192,{t},1,0,0:0:0:0:")
+            cases.append(Case("deccurves " + hexs(chr(10).join(ls).encode()), corr=False, tags=("decoded-maps",)))
         return cases
 
     def is_nontrivial(self, case, impl_out):
